@@ -6,6 +6,9 @@ use crate::macsuites::*;
 use crate::util::*;
 
 pub fn eval(op: &str) -> String {
+    if op.split_whitespace().nth(1) == Some("adev") {
+        return crate::adevgen::eval(op, crate::adevgen::oracle_c10_dev);
+    }
     let outs = run_history(op);
     format!("{} ## oracle={}", outs.join(" ; "), oracle_c09_c10(op, &outs, false, true))
 }
@@ -69,5 +72,23 @@ pub fn run(tier: &str, seed: u64, dir: &str) {
             sink.case(&op, &eval(&op), "random-history", true);
         }
     }
-    sink.finish(dir, "per region: every uplink data rate x RX1 offset 0..7 x RX2 override (set by RXParamSetupReq), every RxDelay 0..15, all 72 fixed-plan channels by forced draws, DlChannelReq remaps, random histories incl. joins; each uplink's RX1/RX2 RfConfig and the delays are judged against RP002 closed forms using the snapshot taken before the uplink. Non-trivial = every case.", false, serde_json::json!({}));
+    // device level: what the async front-end asks of timer and radio
+    for region in REGIONS {
+        for del in [0u8, 1, 2, 7, 15] {
+            for (lead, txms, cc) in [(0u32, 57u32, false), (15, 57, false), (15, 1200, true), (100, 0, true)] {
+                let mut h = crate::adevgen::AHist::new("C10", region, rng.next() & 0xffff, lead, 37, cc, txms);
+                h.abp();
+                let item = h.auth_item(0, 1, false, &rx_timing_setup_req(del), None, &[]);
+                let script: Vec<String> = if cc { vec!["O".into(), "O".into(), "O".into(), "O".into(), item] } else { vec!["O".into(), "O".into(), "O".into(), item] };
+                h.asend(1, false, &[1], &script).ev("snap").asend(1, false, &[2], &[]).ev("snap");
+                let op = h.done();
+                sink.case(&op, &eval(&op), "device-timing", true);
+            }
+        }
+        for i in 0..(if thorough { 300 } else { 20 }) {
+            let op = crate::adevgen::gen_join_history("C10", region, &mut rng, i % 2 == 0);
+            sink.case(&op, &eval(&op), "device-join-timing", true);
+        }
+    }
+    sink.finish(dir, "device level (async front-end): timer and radio requests for RxDelay {0,1,2,7,15} x lead {0,15,100} x tx time x Class A/C, and OTAA joins: RX1 timer = delay + tx_ms - lead, RX2 one second later (join 5 s/6 s), window buffer, Class C continuous reception on the RX2 frequency. MAC level, per region: every uplink data rate x RX1 offset 0..7 x RX2 override (set by RXParamSetupReq), every RxDelay 0..15, all 72 fixed-plan channels by forced draws, DlChannelReq remaps, random histories incl. joins; each uplink's RX1/RX2 RfConfig and the delays are judged against RP002 closed forms using the snapshot taken before the uplink. Non-trivial = every case.", false, serde_json::json!({}));
 }
